@@ -81,6 +81,7 @@ CONTS = ['list']
 # short TLC runs spend most of their CPU in the JIT compiler's second tier: the quick tier (and every tiny run) stops at the first
 LIGHT_JVM = '-XX:TieredStopAtLevel=1'
 JVM = {'quick': True}
+NOTES = set()
 
 
 def tlc_env(zf, light=None):
@@ -171,24 +172,50 @@ def pyval(key, v):
         return (float(frac(v[0])), float(frac(v[1])))
     if key == 'lin_bounds':
         return (10.0 ** int(v[0]), 10.0 ** int(v[1]))
-    if key == 'lin_mean':
+    if key in ('lin_mean', 'lin_std'):
         return 10.0 ** int(v)
     return float(frac(v))
 
 
 def kwargs_of(call):
-    kw = {call['key1']: pyval(call['key1'], call['v1'])}
+    """The keywords of a spec call; a keyword the call leaves out ("" in the spec) is not passed."""
+    kw = {}
+    if call['key1']:
+        kw[call['key1']] = pyval(call['key1'], call['v1'])
     if call['key2']:
         kw[call['key2']] = pyval(call['key2'], call['v2'])
     return kw
+
+
+def form_of(call):
+    """Constructor form (which keywords are given, in which spelling); the six forms of round 1 keep their names."""
+    f = call['key1'] or 'default'
+    if call['cls'] in ('Gaussian', 'LogGaussian') and call['key2'] != 'std':
+        f += '+' + (call['key2'] or 'default_std')
+    return f
+
+
+_SIG = {}
+
+
+def signature_values():
+    """The values the documented signatures give to keywords that are left out (inspect, not the classes' behaviour)."""
+    if not _SIG:
+        import inspect
+        for name in ('Uniform', 'LogUniform', 'Gaussian', 'LogGaussian'):
+            _SIG[name] = {k: q.default for k, q in inspect.signature(klass(name).__init__).parameters.items()
+                          if q.default is not inspect.Parameter.empty}
+    return _SIG
 
 
 def lin_exact(call):
     """log10(10**e) must reproduce e for the linear-space arguments used (else nothing is concluded)."""
     if call['key1'] == 'lin_bounds':
         return all(math.log10(10.0 ** int(e)) == float(int(e)) for e in call['v1'])
-    if call['key1'] == 'lin_mean':
-        return math.log10(10.0 ** int(call['v1'])) == float(int(call['v1']))
+    if call['key1'] == 'lin_mean' and math.log10(10.0 ** int(call['v1'])) != float(int(call['v1'])):
+        return False
+    if call['key2'] == 'lin_std' and math.log10(10.0 ** int(call['v2'])) != float(int(call['v2'])):
+        return False
     return True
 
 
@@ -224,19 +251,57 @@ def text_forms(name, kw, rng):
     return out
 
 
+def check_left_out(ctx, v, cls, kw):
+    """Keywords the call leaves out (Priors.tla: Complete, OmittedIsSignature): the object is the one built with the values of
+    the documented signature passed explicitly.  Returns whether the signature is the one the specification carries (only then
+    do the exact normal form and samples of the vector describe this call)."""
+    call = v['call']
+    sig = signature_values().get(call['cls'], {})
+    spec_sig = {'bounds': [float(frac(x)) for x in v['sig']['bounds']], 'mean': float(frac(v['sig']['mean'])), 'std': float(frac(v['sig']['std']))}
+    known = True
+    full = dict(kw)
+    for k in sorted(v['leftout']):
+        if k not in sig:
+            ctx.verdict('omitted_keyword_is_signature_value', False, cls=cls, vector=dict(call=call, p=v['p']),
+                        detail='%s: keyword %s has no value in the signature %r' % (call['cls'], k, sig))
+            return False
+        val = sig[k]
+        try:
+            same_val = [float(x) for x in val] == spec_sig[k] if k == 'bounds' else float(val) == spec_sig[k]
+        except Exception:
+            same_val = False
+        known = known and same_val
+        full[k] = tuple(val) if k == 'bounds' else val
+    try:
+        short, long_ = klass(call['cls'])(**kw), klass(call['cls'])(**full)
+        ds, dl = describe(short), describe(long_)
+        us = (0.0625, 0.5, 0.8125)
+        ok = ds == dl and [float(short.sample(u)) for u in us] == [float(long_.sample(u)) for u in us]
+        detail = '%s(**%r) is %r; with %r passed explicitly %r' % (call['cls'], kw, ds, {k: full[k] for k in sorted(v['leftout'])}, dl)
+    except Exception as e:
+        ok, detail = False, '%s(**%r) / (**%r) raised %r' % (call['cls'], kw, full, e)
+    ctx.verdict('omitted_keyword_is_signature_value', ok, cls=cls, vector=dict(call=call, p=v['p']), detail=detail)
+    if not known:
+        NOTES.add('the signature of %s gives %r to keywords left out, the specification %r: calls that leave them out are compared '
+                  'with the explicit call only' % (call['cls'], {k: sig[k] for k in sorted(v['leftout'])}, {k: spec_sig[k] for k in sorted(v['leftout'])}))
+    return known
+
+
 def check_vector(ctx, v, rng):
     from taurex.parameter.factory import create_prior
     from taurex.optimizer.optimizer import compile_params
     call, p = v['call'], v['p']
     kind = p['kind']
     uni = kind in ('Uniform', 'LogUniform')
-    cls = '%s:%s' % (call['cls'], call['key1'])
-    if uni:
+    cls = '%s:%s' % (call['cls'], form_of(call))
+    if uni and call['key1']:
         order = 'reversed' if frac(call['v1'][0]) > frac(call['v1'][1]) else 'ordered'
         cls += ':' + order
     if not lin_exact(call):
         raise Machinery('log10(10**e) not exact for %r' % (call,))
     kw = kwargs_of(call)
+    if v['leftout'] and not check_left_out(ctx, v, cls, kw):
+        return
     try:
         obj = klass(call['cls'])(**kw)
         d = describe(obj)
@@ -289,7 +354,7 @@ def check_vector(ctx, v, rng):
     check_tail(ctx, v, obj, cls, a, b, uni)
     check_args_frame(ctx, v, obj, d, cls, kw)
     # --- linear-space arguments == their log10
-    if call['key1'] in ('lin_bounds', 'lin_mean'):
+    if v['logform'] != call:
         lf = v['logform']
         other = klass(lf['cls'])(**kwargs_of(lf))
         same_obj = describe(other) == d and all(same(other.sample(k / UN), obj.sample(k / UN), 1e-12) for k in range(1, UN))
@@ -365,7 +430,9 @@ def check_args_frame(ctx, v, obj, d, cls, kw):
     call = v['call']
     if not (v['twice'][0] == v['p'] and v['twice'][1] == v['p']):
         raise Machinery('the specification builds %r from a re-used argument of %r' % (v['twice'], call))
-    kinds = v['conts'] if isinstance(kw[call['key1']], tuple) else v['scalars']
+    if not kw:
+        return                                  # no argument object is handed over
+    kinds = v['conts'] if any(isinstance(x, tuple) for x in kw.values()) else v['scalars']
     ref = [float(obj.sample(u)) for u in (0.3125, 0.875)]
     for kind in sorted(kinds):
         made = {k: make_arg(kind, val) for k, val in kw.items()}
@@ -908,6 +975,7 @@ def start_background(ctx, zf):
         'history-mode-as-typed-refuted': lambda: run_tlc('MC_PriorHistory', 'MC_PriorHistory_astyped.cfg', env=tiny, workers=2, allow_violation=True),
         'history-bounds-in-place-refuted': lambda: run_tlc('MC_PriorHistory', 'MC_PriorHistory_inplace.cfg', env=tiny, workers=2, allow_violation=True),
         'argument-in-place-refuted': lambda: run_tlc('MC_Priors', 'MC_Priors_inplace.cfg', env=tiny, workers=2, allow_violation=True),
+        'keywords-coupled-refuted': lambda: run_tlc('MC_Priors', 'MC_Priors_coupled.cfg', env=tiny, workers=2, allow_violation=True),
     }
     started = {k: pool.submit(f) for k, f in jobs.items()}
     pool.shutdown(wait=False)
@@ -915,7 +983,8 @@ def start_background(ctx, zf):
 
 
 REFUTED = {'history-default-cache-refuted': 'HistoryInv', 'history-mode-as-typed-refuted': 'ModeSpellingInv',
-           'history-bounds-in-place-refuted': 'ArgsFrameInv', 'argument-in-place-refuted': 'ArgsFrameInv'}
+           'history-bounds-in-place-refuted': 'ArgsFrameInv', 'argument-in-place-refuted': 'ArgsFrameInv',
+           'keywords-coupled-refuted': 'LinArgsInv'}
 
 
 def collect_background(ctx, started):
@@ -1273,9 +1342,11 @@ def run(ctx):
         kinds = set()
         for v in vecs:
             check_vector(ctx, v, rng)
-            kinds.add((v['call']['cls'], v['call']['key1']))
-        if len(kinds) != 6:
-            raise Machinery('exported vectors do not cover the six constructor forms: %r' % sorted(kinds))
+            kinds.add((v['call']['cls'], v['call']['key1'], v['call']['key2']))
+        if len(kinds) != 18:        # 2 + 3 forms of the uniform kinds, 2 x 2 + 3 x 3 of the normal kinds (MC_Priors: FormsInv)
+            raise Machinery('exported vectors do not cover the 18 constructor forms: %r' % sorted(kinds))
+        for n in sorted(NOTES):
+            ctx.note(n)
         ctx.add_sample(dict(vector=vecs[len(vecs) // 2]))
         import time
         t1 = time.time()
